@@ -206,6 +206,11 @@ def build(tree):
             return o
 
         return build(tree[2]).umap(custom)
+    if t == "filtsrc":
+        # a predicate that looks at where an outcome came from, not at its value: keep what source j produced
+        srcs = [build(s) for s in tree[2]]
+        keep = srcs[tree[1]]
+        return R.filter_from_sources(lambda o: o.r is keep, *srcs)
     if t == "filt":
         p = pred_fn(tree[1], tree[2])
         if len(tree[3]) == 1 and len(repr(tree)) % 2:
@@ -286,6 +291,8 @@ def tokens(tree):
         return ["9", str(tree[1]), str(tree[2])] + tokens(tree[3]) + ["1" if tree[4] else "0", str(tree[5])] + tokens(tree[6])
     if t == "unb":
         return ["11", str(tree[1]), str(tree[2]), str(tree[3])] + tokens(tree[4])
+    if t == "filtsrc":
+        raise KeyError("filtsrc has no model form")
     if t == "unc":
         out = ["12", str(len(tree[1]))]
         for code, k, side in tree[1]:
@@ -385,6 +392,12 @@ def denote(tree, budget=None):
     if t == "un":
         f = UN_INT[tree[1]]
         return push(denote(tree[2]), lambda k: (f(sum(k)),))
+    if t == "filtsrc":
+        w = 1
+        for i, s in enumerate(tree[2]):
+            if i != tree[1]:
+                w *= sum(denote(s).values())
+        return {k: c * w for k, c in denote(tree[2][tree[1]]).items()}
     if t == "unc":
         def run(v):
             for code, k, side in tree[1]:
@@ -495,6 +508,9 @@ def rand_tree(rnd, size):
             return ["unb", op, k, side, rand_tree(rnd, size - 1)]
         return ["un", rnd.choice(list(UN)), rand_tree(rnd, size - 1)]
     if r < 0.7:
+        if rnd.random() < 0.12:
+            n = rnd.randint(2, 3)
+            return ["filtsrc", rnd.randrange(n), [rand_leaf(rnd) for _ in range(n)]]  # leaves own their outcomes
         n = rnd.randint(1, 2)
         return ["filt", rnd.choice([0, 1, 2, 3]), rnd.randint(0, 3), [rand_tree(rnd, (size - 1) // n) for _ in range(n)]]
     if r < 0.86:
@@ -532,6 +548,8 @@ def fix_selections(rnd, tree):
         return tree[:4] + [fix_selections(rnd, tree[4])]
     if t == "unc":
         return ["unc", tree[1], fix_selections(rnd, tree[2])]
+    if t == "filtsrc":
+        return tree
     if t == "filt":
         return ["filt", tree[1], tree[2], [fix_selections(rnd, s) for s in tree[3]]]
     if t == "subst":
@@ -562,7 +580,15 @@ def unit_counts(tree):
             for x in tree]
 
 
-KINDS = ("val", "valh", "valp", "pool", "rep", "bin", "un", "unb", "unc", "filt", "sel", "subst", "substmap")
+KINDS = ("val", "valh", "valp", "pool", "rep", "bin", "un", "unb", "unc", "filt", "filtsrc", "sel", "subst", "substmap")
+
+
+def has_kind(tree, kind):
+    if isinstance(tree, list):
+        if tree and tree[0] == kind:
+            return True
+        return any(has_kind(x, kind) for x in tree)
+    return False
 
 
 def count_paths(tree):
